@@ -52,6 +52,19 @@ def spanGrammarCheck : Bool :=
 
 theorem span_grammar_ok : spanGrammarCheck = true := by decide +kernel
 
+/-- the productions of `p_redirection_heredoc` end in a WORD: the delimiter of a here-document is
+    the value of a WORD token (hence not empty, `WNE`) -/
+def heredocProdOK (f : String) (rhs : List Nat) : Bool :=
+  f != "p_redirection_heredoc" ||
+    (match rhs.getLast? with
+     | some s => sortOfSymbol s == .tok (some .WORD)
+     | none => false)
+
+def heredocGrammarCheck : Bool :=
+  (List.zip Gen.prodFuncs Gen.prodTable).all fun (f, (_, rhs)) => heredocProdOK f rhs
+
+theorem heredoc_grammar_ok : heredocGrammarCheck = true := by decide +kernel
+
 def dfltCheck : Bool := Gen.defaultedStates.all fun (_, p) => dfltFuncs.contains (fn p)
 
 theorem dflt_ok : dfltCheck = true := by decide +kernel
@@ -85,6 +98,21 @@ theorem prod_ok {p lhs : Nat} {rhs : List Nat} (hp : realTables.prods[p]? = some
   have hmem := List.mem_of_getElem? hz
   have hg := span_grammar_ok
   unfold spanGrammarCheck at hg
+  exact List.all_eq_true.mp hg _ hmem
+
+theorem heredoc_prod_ok {p lhs : Nat} {rhs : List Nat}
+    (hp : realTables.prods[p]? = some (lhs, rhs)) : heredocProdOK (fn p) rhs = true := by
+  have hp' : Gen.prodTable[p]? = some (lhs, rhs) := hp
+  have hlt : p < Gen.prodFuncs.length := by
+    rw [prodFuncs_length]
+    exact (List.getElem?_eq_some_iff.mp hp').1
+  have hf : Gen.prodFuncs[p]? = some (fn p) := by
+    simp [fn, List.getD_eq_getElem?_getD, List.getElem?_eq_getElem hlt]
+  have hz : (List.zip Gen.prodFuncs Gen.prodTable)[p]? = some (fn p, (lhs, rhs)) :=
+    List.getElem?_zip_eq_some.mpr ⟨hf, hp'⟩
+  have hmem := List.mem_of_getElem? hz
+  have hg := heredoc_grammar_ok
+  unfold heredocGrammarCheck at hg
   exact List.all_eq_true.mp hg _ hmem
 
 theorem dflt_fn {s p : Nat} (h : realTables.dflt s = some p) : dfltFuncs.contains (fn p) = true := by
